@@ -536,6 +536,7 @@ type Contract struct {
 	Uses     []string // lemmas (by name) assumed as hypotheses inside this function
 	UsesLate []string // lemmas assumed only at the returns
 	AliasSame map[string]bool // "a|b": aliased slices a and b start at the same element when they share memory
+	Returns  map[int][]*Clause    // k -> conditions that hold whenever the k-th return statement is reached
 	Gotos    map[string][]*Clause // "label#k" -> conditions under which the k-th goto to label may be taken
 	Afters   map[string][]*Clause // "pkg.F#k" -> assertions proved (then assumed) right after the block-level statement containing the k-th call of pkg.F
 	Hide     []string // spec functions whose defining axioms (`;@ defines f` in the prelude) are not shipped with this function's VCs
@@ -573,7 +574,7 @@ type ContractSet struct {
 var clauseKeywords = map[string]bool{
 	"func": true, "props": true, "requires": true, "ensures": true, "assigns": true, "loop": true, "alias": true,
 	"inline": true, "trusted": true, "panics": true, "nooverflow": true, "lemma": true, "pure": true, "opaque": true,
-	"extern": true, "assert": true, "fresh": true, "maybenil": true, "package": true, "pred": true, "tagset": true, "aset": true, "reads": true, "inlines": true, "unroll": true, "exit": true, "use": true, "hide": true, "after": true, "uselate": true, "goto": true,
+	"extern": true, "assert": true, "fresh": true, "maybenil": true, "package": true, "pred": true, "tagset": true, "aset": true, "reads": true, "inlines": true, "unroll": true, "exit": true, "use": true, "hide": true, "after": true, "uselate": true, "goto": true, "return": true,
 }
 
 // assignSets: `//@ aset name := $.f, $.g[0:4]` — a reusable list of assigns items, `$` is the argument.
@@ -795,6 +796,27 @@ func (cs *ContractSet) ReadFile(path, pkgName string, external bool) error {
 					return err
 				}
 				cur.Asserts = append(cur.Asserts, c)
+			case "return":
+				// return <k> assert[tags] expr
+				f := strings.Fields(rest)
+				if len(f) < 3 || !strings.HasPrefix(f[1], "assert") {
+					return fmt.Errorf("%s: return needs 'k assert[tags] expr'", l.pos)
+				}
+				rk, err := strconv.Atoi(f[0])
+				if err != nil {
+					return fmt.Errorf("%s: return ordinal: %v", l.pos, err)
+				}
+				ri := strings.Index(rest, f[1])
+				_, rtags := splitTags(f[1])
+				rbody := strings.TrimSpace(rest[ri+len(f[1]):])
+				re, err := ParseCExpr(rbody, l.pos)
+				if err != nil {
+					return err
+				}
+				if cur.Returns == nil {
+					cur.Returns = map[int][]*Clause{}
+				}
+				cur.Returns[rk] = append(cur.Returns[rk], &Clause{Tags: rtags, E: re, Src: rbody, Pos: l.pos})
 			case "goto":
 				// goto <label> <k> assert[tags] expr
 				f := strings.Fields(rest)
